@@ -61,8 +61,9 @@ func runDecode(cfg *Cfg) {
 		en := enumNums(t)
 		deepAndBig(out, t, r, cfg.Tier)
 		repeatedKeyPass(out, t, r, en, modelOK)
+		largeUnknownPass(out, t, r, en)
 		for c := 0; c < perTarget; c++ {
-			g := &vval.StreamGen{R: r, S: t.S, G: &vval.GenOpts{EnumNums: en}, Features: map[string]bool{}, MaxDepth: 1 + r.Intn(3)}
+			g := &vval.StreamGen{R: r, S: t.S, G: &vval.GenOpts{EnumNums: en, BigBlobs: r.Chance(6)}, Features: map[string]bool{}, MaxDepth: 1 + r.Intn(3)}
 			bs := g.Message(0, 0)
 			malformed := false
 			if r.Chance(22) {
@@ -73,7 +74,7 @@ func runDecode(cfg *Cfg) {
 			discard := r.Chance(25)
 			var into *vval.Val
 			if merge {
-				into = (&vval.GenOpts{MaxDepth: 2, EnumNums: en, Unknown: r.Bool()}).Message(r, t.S, 0, 0)
+				into = (&vval.GenOpts{MaxDepth: 2, EnumNums: en, Unknown: r.Bool(), NilJunk: r.Chance(25)}).Message(r, t.S, 0, 0)
 				g.Features["merge-into-nonempty"] = true
 			} else {
 				into = vval.Empty(t.S, 0)
@@ -84,6 +85,38 @@ func runDecode(cfg *Cfg) {
 			}
 			decodeCase(out, t, g, bs, into, merge, discard, malformed, modelOK)
 		}
+	}
+}
+
+// largeUnknownPass: unknown length-delimited records whose length needs a 4-byte prefix (>= 2^21 bytes) — top
+// level, followed by known records, and with a payload that itself looks like records of the message (a skipper
+// that gets the length wrong continues parsing inside the payload). First targets only (2 MB inputs).
+var largeUnknownTargets int
+
+func largeUnknownPass(out *Out, t *Target, r *vschema.Rand, en []int32) {
+	if largeUnknownTargets >= 3 {
+		return
+	}
+	largeUnknownTargets++
+	for _, n := range []int{1<<21 - 1, 1 << 21, 1<<21 + 12345, 3 << 21} {
+		g := &vval.StreamGen{R: r, S: t.S, G: &vval.GenOpts{EnumNums: en}, Features: map[string]bool{"large-unknown": true, "unknown": true}, MaxDepth: 1}
+		known := g.Message(0, 0)
+		payload := make([]byte, 0, n+len(known))
+		for len(payload) < n {
+			if len(known) > 0 && len(known) <= n-len(payload) && r.Chance(50) {
+				payload = append(payload, known...)
+			} else {
+				payload = append(payload, 0x08, 0x05)
+			}
+		}
+		payload = payload[:n]
+		bs := protowire.AppendTag(nil, 536870003, protowire.BytesType)
+		bs = protowire.AppendBytes(bs, payload)
+		bs = append(append([]byte(nil), known...), bs...)
+		bs = append(bs, known...)
+		out.Case(fmt.Sprintf("largeunknown:%s:%d", t.Full, n), true)
+		out.Count("large_unknown_cases")
+		decodeCase(out, t, g, bs, vval.Empty(t.S, 0), false, false, false, false)
 	}
 }
 
@@ -812,6 +845,12 @@ func decodeCase(out *Out, t *Target, g *vval.StreamGen, bs []byte, into *vval.Va
 			return
 		}
 		gotN := vval.RepNorm(t.S, 0, got)
+		if merge && hasJunk(t.S, 0, into) {
+			// the Merge target held nil list elements / nil map values / wrappers without payload: the reference reads
+			// them as empty messages (that is how such a value reaches it), so what is left of them is compared as such
+			gotN = vval.RepNorm(t.S, 0, vval.Normalize(t.S, 0, got))
+			out.Count("merge_targets_with_nil_junk")
+		}
 		if gotN.String() != refVal.String() {
 			if !malformed {
 				prop := "C03"
